@@ -560,6 +560,9 @@ func (c *codegen) computeMutates() {
 							}
 						}
 					}
+					if nt == "" {
+						nt = c.rawPromotedFieldType(t, f) // deeper chains (code_parse.go)
+					}
 					t = nt
 				}
 				return t
@@ -580,9 +583,27 @@ func (c *codegen) computeMutates() {
 						m = true
 					}
 				case *ast.CallExpr:
+					// fifth part: an interface value of the receiver handed to a callee may be used by it
+					for _, a := range x.Args {
+						if _, isSel := a.(*ast.SelectorExpr); isSel && rooted(a) && c.ifaceByStr(typeOfPath(a)) != nil {
+							m = true
+						}
+					}
 					switch f := x.Fun.(type) {
 					case *ast.SelectorExpr:
 						if rooted(f.X) && c.mutates[fnKey{typeOfPath(f.X), f.Sel.Name}] {
+							m = true
+						}
+						// a method promoted from an embedded struct (code_parse.go)
+						if rooted(f.X) {
+							if tp := typeOfPath(f.X); tp != "" && c.fns[fnKey{tp, f.Sel.Name}] == nil {
+								if pp := c.promotedMethod(tp, f.Sel.Name, fd); pp != nil && c.mutates[fnKey{pp[len(pp)-1], f.Sel.Name}] {
+									m = true
+								}
+							}
+						}
+						// fifth part: a method call on an interface value changes the state behind it
+						if rooted(f.X) && c.ifaceByStr(typeOfPath(f.X)) != nil {
 							m = true
 						}
 					case *ast.Ident:
@@ -614,8 +635,9 @@ func (c *codegen) ensure(k fnKey, at ast.Node) {
 		c.fail(at, "recursive call of %s", fnName(k))
 	}
 	c.busy[k] = true
-	saved, savedPhase, savedPhase3, savedPhase4 := c.cur, c.phase2, c.phase3, c.phase4
-	defer func() { c.phase4 = savedPhase4 }()
+	saved, savedPhase, savedPhase3, savedPhase4, savedPhase5 := c.cur, c.phase2, c.phase3, c.phase4, c.phase5
+	defer func() { c.phase4, c.phase5 = savedPhase4, savedPhase5 }()
+	c.phase5 = c.phase5 && c.white5Set[k]
 	var out fnOut
 	if c.white4Set[k] {
 		if !c.phase4 {
